@@ -1,7 +1,7 @@
 #!/venv/bin/python
 """Behaviour-preserving changes (benign/<id>/patch.diff) must leave every check quiet.
 
-  tools/run_benign.py [names...] [--jobs N]
+  tools/run_benign.py [names...] [--jobs N] [--props C01,C03] [--no-suite]
 
 For every patch: scratch copy of /repo, apply, run the repository's test suite
 once (must stay green), then all 20 quick checks with VERIF_REPO pointing at
@@ -33,9 +33,11 @@ def run_one(name):
         if r.returncode:
             out["suite"] = "patch does not apply: " + r.stderr[-200:]
             return out
-        t = subprocess.run("timeout 900 /venv/bin/python -m pytest -q -p no:cacheprovider 2>&1 | tail -1", shell=True,
-                           cwd=dst, env=dict(os.environ, PYTHONPATH=dst), capture_output=True, text=True)
-        out["suite"] = t.stdout.strip()
+        if SUITE:
+            t = subprocess.run("timeout 900 /venv/bin/python -m pytest -q -p no:cacheprovider 2>&1 | tail -1",
+                               shell=True, cwd=dst, env=dict(os.environ, PYTHONPATH=dst), capture_output=True,
+                               text=True)
+            out["suite"] = t.stdout.strip()
         for p in PROPS:
             env = dict(os.environ, VERIF_REPO=dst, VERIF_SCRATCH=f"ben-{name}", PYTHONHASHSEED="0",
                        PYTHONDONTWRITEBYTECODE="1")
@@ -50,14 +52,30 @@ def run_one(name):
         shutil.rmtree(f"/verif/.work/scratch-ben-{name}", ignore_errors=True)
     meta_p = os.path.join(d, "meta.json")
     meta = json.load(open(meta_p)) if os.path.exists(meta_p) else {}
+    if len(PROPS) < 20 or not SUITE:
+        # partial re-run (after some checks were strengthened): keep the earlier record for the other checks
+        old = [a for a in meta.get("alarms", []) if a["property"] not in PROPS]
+        out["alarms"] = old + out["alarms"]
+        out["suite"] = out["suite"] or meta.get("suite")
     meta.update(suite=out["suite"], alarms=out["alarms"], verdict="QUIET" if not out["alarms"] else "ALARM")
     json.dump(meta, open(meta_p, "w"), indent=1)
     return out
 
 
+SUITE = True
+
+
 def main():
+    global PROPS, SUITE
     args = sys.argv[1:]
     jobs = 5
+    if "--no-suite" in args:
+        args.remove("--no-suite")
+        SUITE = False
+    if "--props" in args:
+        i = args.index("--props")
+        PROPS = args[i + 1].split(",")
+        del args[i:i + 2]
     if "--jobs" in args:
         i = args.index("--jobs")
         jobs = int(args[i + 1])
